@@ -1,6 +1,12 @@
 HOOK_COMMITS = []
 NOT_APPLICABLE = {}
 CHECKS = {
+ "C18": {
+  "level": "exploration",
+  "technique": "runtime monitor: analytic path oracle (independent station directions, pure-Python leg integration) over seeded survey tables; tag-encoded addition histories; numpy poison proxy (uninitialised-read sanitizer) installed in the library modules",
+  "text": "Thousands of seeded (collar, survey table, query depth) triples covering single-row tables, first depth 0 and > 0, repeated depths, azimuth wrap-around and vertical holes are checked against the statement's clauses: desurvey(0) is the collar, continuity across every station, displacement inside a leg = depth difference x mean of the two station directions, the last direction of motion continues beyond the final survey, all coordinates finite. Addition histories of depth and interval data (any order, unsorted, collocated within tolerance, with re-opens) must leave every vertex at desurvey(DEPTH), every cell joining desurvey(FROM)/desurvey(TO) and every value on the depth / interval it was given for. A numpy proxy fills ufunc outputs selected with where= but no out= and np.empty with NaN so uninitialised reads are deterministic. Held on the counted tables and histories only.",
+  "note": "Azimuth/dip convention from the ANALYST documentation, anchored by convention-free clauses. Repeated depths are generated in the middle of tables only (the last leg keeps a positive length).",
+ },
  "C12": {
   "level": "exploration",
   "technique": "runtime monitor: reflective class x target x option sweep; record-by-record differential copy vs source with child-uid map, source ApiSnapshot + file digests before/after, behavioural aliasing probes (in-place and setter edits of the copy, lazy first read of the source)",
